@@ -136,6 +136,29 @@ func TestProp_Metadata(t *testing.T) {
 					}
 				}
 			}
+			// ... or put protocols of its own in FRONT of the library's entries, or between
+			// the request chunks (chunks are recombined in order, whatever stands between them)
+			if k := rapid.IntRange(0, 4).Draw(t, "prependedBeforeChunks"); k > 0 && k <= 2 {
+				var own []string
+				for i := 0; i < k; i++ {
+					own = append(own, rapid.SampledFrom(extraAlphabet).Draw(t, "prepended"))
+				}
+				cfgs[0].NextProtos = append(own, cfgs[0].NextProtos...)
+			}
+			if rapid.IntRange(0, 3).Draw(t, "insertBetweenChunks") == 0 {
+				np := cfgs[0].NextProtos
+				var chunkIdx []int
+				for i, p := range np {
+					if strings.HasPrefix(p, nodeenrollment.AuthenticateNodeNextProtoV1Prefix) {
+						chunkIdx = append(chunkIdx, i)
+					}
+				}
+				if len(chunkIdx) >= 2 {
+					at := chunkIdx[rapid.IntRange(1, len(chunkIdx)-1).Draw(t, "betweenAt")]
+					ins := rapid.SampledFrom(extraAlphabet).Draw(t, "inserted")
+					cfgs[0].NextProtos = append(append(append([]string(nil), np[:at]...), ins), np[at:]...)
+				}
+			}
 			wire = append([]string(nil), cfgs[0].NextProtos...)
 			raw, derr := net.Dial("tcp", rig.Addr)
 			if derr != nil {
